@@ -37,7 +37,7 @@ OPS = ('=', '<>', '<', '<=', '>', '>=')
 OPERANDS = ('5', '-3', '0', 'apple', 'b', 'BANANA')
 CRITERIA = (5, -3, 0, 'apple', 'APPLE', 'b', 'banana', '5', '-3') + tuple(
     op + o for op in OPS for o in OPERANDS)
-MATCH_KEYS = ALPHA6 + (7, 'zz')
+MATCH_KEYS = ALPHA6 + (7, 'zz', 'APPLE', 'banana', 'B')
 # COUNTIFS / SUMIFS criteria
 C8 = (5, '>1', '<>5', '<=1', 'apple', '<>APPLE', '>=b', '<5')
 C3 = ('>1', '<>apple', 'B')
@@ -45,7 +45,7 @@ C4 = ('<>1', '>=5', 'b', '<b')
 APPROX_VALUES = (1, 3, 5, 7)
 APPROX_KEYS = tuple(range(0, 9))
 VL_KEYS = (1, 3, 'a', 'B')
-VL_SEARCH = VL_KEYS + (7, 'zz')
+VL_SEARCH = VL_KEYS + (7, 'zz', 'A', 'b')
 CHOOSE_VALUES = (10, 't2', 30.5, 't4')
 POWERS = (1, 2, 4, 8, 16, 32)
 
@@ -356,6 +356,49 @@ def run_pair(a, b, mode, ctx, only=None):
                     'mode': mode})
 
 
+# ---------------------------------------------------------------- family B2
+# criteria ranges that are rows or blocks, not columns: "position by position"
+# is the row-major position
+BLOCKS = (((1, 2), ALPHA4), ((2, 1), ALPHA4), ((1, 3), (1, 5, 'b')),
+          ((2, 2), (5, 'b')))
+
+
+def block_cells(values, nr, nc, col0):
+    d = {}
+    for i in range(nr):
+        for j in range(nc):
+            d['Sheet1!%s%d' % (chr(ord(col0) + j), i + 1)] = \
+                values[i * nc + j]
+    return d
+
+
+def block_rng(nr, nc, col0):
+    return '%s1:%s%d' % (col0, chr(ord(col0) + nc - 1), nr)
+
+
+def run_block(bi, a, b, ctx, only=None):
+    (nr, nc), _alpha = BLOCKS[bi]
+    rec = Rec(ctx, only)
+    cells = block_cells(a, nr, nc, 'A')
+    cells.update(block_cells(b, nr, nc, 'E'))
+    base = 'C15/block/%dx%d/%s/%s' % (nr, nc, colkey(a), colkey(b))
+    batch = Batch(cells)
+    ra, rb = block_rng(nr, nc, 'A'), block_rng(nr, nc, 'E')
+    for c1 in C3:
+        tags1 = ref.criterion_tags(c1, a) | {'shape:%dx%d' % (nr, nc)}
+        batch.add('%s/COUNTIF/%s' % (base, vkey(c1)),
+                  '=COUNTIF(%s,%s)' % (ra, lit(c1)),
+                  tags1 | {'fn:COUNTIF'}, ref.countif(list(a), c1), True)
+        for c2 in C3:
+            tags = tags1 | ref.criterion_tags(c2, b) | {'criteria:2'}
+            batch.add('%s/COUNTIFS/%s/%s' % (base, vkey(c1), vkey(c2)),
+                      '=COUNTIFS(%s,%s,%s,%s)' % (ra, lit(c1), rb, lit(c2)),
+                      tags | {'fn:COUNTIFS'},
+                      ref.countifs([(list(a), c1), (list(b), c2)]), True)
+    batch.run(rec, {'family': 'block', 'bi': bi, 'a': list(a),
+                    'b': list(b)})
+
+
 # ---------------------------------------------------------------- family C
 def run_approx(values, ctx, only=None):
     rec = Rec(ctx, only)
@@ -501,6 +544,11 @@ def plan(tier):
         for lo in range(0, total, chunk):
             shards.append({'fam': 'pair', 'n': n, 'mode': mode, 'lo': lo,
                            'hi': min(total, lo + chunk)})
+    for bi, ((nr, nc), alpha) in enumerate(BLOCKS):
+        total = len(alpha) ** (2 * nr * nc)
+        for lo in range(0, total, 64):
+            shards.append({'fam': 'block', 'bi': bi, 'lo': lo,
+                           'hi': min(total, lo + 64)})
     asc = len(ascending_columns(6 if thorough else 5))
     for lo in range(0, asc, 12):
         shards.append({'fam': 'approx', 'maxlen': 6 if thorough else 5,
@@ -537,6 +585,15 @@ def run_shard(shard, ctx):
         for idx in range(shard['lo'], shard['hi']):
             w = word(ALPHA4, 2 * n, idx)
             run_pair(w[:n], w[n:], shard['mode'], ctx)
+    elif fam == 'block':
+        (nr, nc), alpha = BLOCKS[shard['bi']]
+        k = nr * nc
+        for idx in range(shard['lo'], shard['hi']):
+            w = word(alpha, 2 * k, idx)
+            run_block(shard['bi'], w[:k], w[k:], ctx)
+        if shard['lo'] == 0:
+            ctx.sample({'family': 'block', 'shape': [nr, nc],
+                        'formula': '=COUNTIFS(A1:B2,">1",E1:F2,"B")'})
     elif fam == 'approx':
         cols = ascending_columns(shard['maxlen'])
         for values in cols[shard['lo']:shard['hi']]:
@@ -560,6 +617,9 @@ def replay(inputs, ctx):
         run_column(tuple(inputs['values']), ctx, only)
     elif fam in ('column-frac', 'column-digit', 'column-words'):
         run_column2(fam, tuple(inputs['values']), ctx, only)
+    elif fam == 'block':
+        run_block(inputs['bi'], tuple(inputs['a']), tuple(inputs['b']), ctx,
+                  only)
     elif fam == 'pair':
         run_pair(tuple(inputs['a']), tuple(inputs['b']), inputs['mode'], ctx,
                  only)
